@@ -783,6 +783,21 @@ pub type Dec<M, H> = Decapsulator<M, DefaultCrc, H>;
 pub type SimpleDec = Dec<SimpleGseMemory, TableManager>;
 pub type LedgerDec = Dec<LedgerMemory<SimpleGseMemory>, TableManager>;
 
+/// fragment ids: mostly a handful of small ids (so that trains meet), any id, and the ids a width or
+/// sign slip would single out
+pub fn frag_id_any() -> impl Strategy<Value = u8> {
+    prop_oneof![8 => 0u8..6, 2 => any::<u8>(), 1 => Just(255u8), 1 => prop_oneof![Just(254u8), Just(128u8), Just(127u8), Just(64u8)]]
+}
+
+/// slot counts are stored in a byte in the cases: 0 stands for 256 (every fragment id its own slot)
+pub fn slots_of(s: u8) -> usize {
+    if s == 0 {
+        256
+    } else {
+        s as usize
+    }
+}
+
 pub fn new_simple_dec(slots: usize, pdu_size: usize, bufs: &[usize], mgr: TableManager) -> SimpleDec {
     let mut m = SimpleGseMemory::new(slots, pdu_size, 0, 0);
     for b in bufs {
